@@ -185,6 +185,7 @@ package bridgesync
 //@ interface github.com/agglayer/aggkit/db/types.Querier.Query@bridgesync.(*processor).queryBlockRange (self, query, args)
 //@   modifies nothing
 //@   ensures result1 != nil ==> result0 == nil
+//@   ensures result1 == nil ==> result0 != nil
 //@ func (p *processor) isBlockProcessed (p, tx, blockNum)
 //@   props C02 C03 C05
 //@   requires tx != nil
@@ -194,9 +195,12 @@ package bridgesync
 //@ func (p *processor) queryBlockRange (p, tx, fromBlock, toBlock, table)
 //@   props C02 C03 C05
 //@   requires p != nil && tx != nil
-//@   modifies bsLastBlockScanFaults
+//@   modifies bsLastBlockScanFaults, bsRangeNotFound
+//@   set bsRangeNotFound := result1 != nil && isErr(result1, db.ErrNotFound)
+//@   ensures[observed] bsRangeNotFound == (result1 != nil && isErr(result1, db.ErrNotFound))
 //@   sqltext "SELECT * FROM %s WHERE block_num >= $1 AND block_num <= $2 ORDER BY block_num ASC, block_pos ASC;"
 //@   ensures[error-means-no-rows-object] result1 != nil ==> result0 == nil
+//@   ensures[success-means-a-rows-object] result1 == nil ==> result0 != nil
 //@   ensures[served-only-for-a-processed-range] result1 == nil ==> toBlock <= ite(bsLastBlockRow == -1, 0, bsLastBlockRow)
 //@   assert call:isBlockProcessed arg1 == tx && arg2 == toBlock
 //@   assert call:Query recv == tx && len(arg1) == 2 && typeIs(arg1[0], uint64) && unbox(arg1[0], uint64) == fromBlock && typeIs(arg1[1], uint64) && unbox(arg1[1], uint64) == toBlock
@@ -247,23 +251,39 @@ package bridgesync
 //@   modifies nothing
 //@   ensures result1 != nil ==> result0 == nil
 //@   ensures result1 == nil ==> result0 != nil
+// observations at the row-mapping boundary (ghost): how many result sets were read and how many of those reads failed,
+// whether the last range query answered "not found", and which slice the last pointer-to-value conversion produced
+//@ ghost var bsRowsScans int
+//@ ghost var bsRowsScanFaults int
+//@ ghost var bsRangeNotFound bool
+//@ ghost var bsConvRef int
+//@ ghost var bsConvLen int
 //@ extern github.com/russross/meddler.ScanAll (rows, dst)
-//@   modifies heap
+//@   modifies heap, bsRowsScans, bsRowsScanFaults
+//@   ensures bsRowsScans == old(bsRowsScans) + 1 && bsRowsScanFaults == old(bsRowsScanFaults) + ite(result != nil, 1, 0)
 //@ extern github.com/agglayer/aggkit/db.SlicePtrsToSlice (slice)
-//@   modifies nothing
+//@   modifies bsConvRef, bsConvLen
+//@   ensures typeIs(result, []Bridge) ==> (bsConvRef == ref(unbox(result, []Bridge)) && bsConvLen == len(unbox(result, []Bridge)))
+//@   ensures typeIs(result, []Claim) ==> (bsConvRef == ref(unbox(result, []Claim)) && bsConvLen == len(unbox(result, []Claim)))
 //@ func (p *processor) GetBridges (p, ctx, fromBlock, toBlock)
 //@   props C02 C03
 //@   consttext "bridge"
 //@   requires p != nil && p.log != nil
-//@   modifies heap
+//@   modifies heap, bsRowsScans, bsRowsScanFaults, bsRangeNotFound, bsConvRef, bsConvLen, bsLastBlockScanFaults
 //@   ensures[error-means-nothing] result1 != nil ==> result0 == nil
+// a successful answer is either the explicit "none in that range" (empty) or the rows of that one query, read without a
+// failure and handed back as converted - never an empty answer standing in for a query or a read that was not made
+//@   ensures[success-is-the-rows-read-or-an-explicit-none] result1 == nil ==> ((bsRangeNotFound && len(result0) == 0) || (!bsRangeNotFound && bsRowsScans == old(bsRowsScans) + 1 && bsRowsScanFaults == old(bsRowsScanFaults) && ref(result0) == bsConvRef && len(result0) == bsConvLen))
 //@   assert call:queryBlockRange arg0 == p && arg1 == tx && arg2 == fromBlock && arg3 == toBlock && arg4 == "bridge"
 //@ func (p *processor) GetClaims (p, ctx, fromBlock, toBlock)
 //@   props C02 C03
 //@   consttext "claim"
 //@   requires p != nil && p.log != nil
-//@   modifies heap
+//@   modifies heap, bsRowsScans, bsRowsScanFaults, bsRangeNotFound, bsConvRef, bsConvLen, bsLastBlockScanFaults
 //@   ensures[error-means-nothing] result1 != nil ==> result0 == nil
+// a successful answer is either the explicit "none in that range" (empty) or the rows of that one query, read without a
+// failure and handed back as converted - never an empty answer standing in for a query or a read that was not made
+//@   ensures[success-is-the-rows-read-or-an-explicit-none] result1 == nil ==> ((bsRangeNotFound && len(result0) == 0) || (!bsRangeNotFound && bsRowsScans == old(bsRowsScans) + 1 && bsRowsScanFaults == old(bsRowsScanFaults) && ref(result0) == bsConvRef && len(result0) == bsConvLen))
 //@   assert call:queryBlockRange arg0 == p && arg1 == tx && arg2 == fromBlock && arg3 == toBlock && arg4 == "claim"
 
 // ---- decoding a watched log into an event of the block (C01, C03, C05): exactly one event is added per log, and the
